@@ -557,7 +557,7 @@ _ACC = {}
 
 
 def accessor_names(repo, d):
-    from .layout import Access
+    from .access import Access
     a = _ACC.get(id(repo))
     if a is None:
         a = _ACC[id(repo)] = Access(repo)
